@@ -641,8 +641,19 @@ static int
 _BTree_clear(BTree *self)
 {
     const int len = self->len;
+    BTreeItem *data = self->data;
+    Bucket *firstbucket = self->firstbucket;
 
-    if (self->firstbucket)
+    /* Detach everything first and release it afterwards:  releasing a child
+    * or a key can run arbitrary code (the __del__ of a key or value) that
+    * looks at this tree again, and by then the tree must not refer to
+    * children it no longer owns.
+    */
+    self->data = NULL;
+    self->firstbucket = NULL;
+    self->len = self->size = 0;
+
+    if (firstbucket)
     {
         /* Obscure:  The first bucket is pointed to at least by
         * self->firstbucket and data[0].child of whichever BTree node it's
@@ -651,36 +662,33 @@ _BTree_clear(BTree *self)
         * count":  we can only rely on self's pointers being intact.
         */
 #ifdef PERSISTENT
-        ASSERT(Py_REFCNT(self->firstbucket) > 0,
+        ASSERT(Py_REFCNT(firstbucket) > 0,
             "Invalid firstbucket pointer", -1);
 #else
-        ASSERT(Py_REFCNT(self->firstbucket) > 1,
+        ASSERT(Py_REFCNT(firstbucket) > 1,
             "Invalid firstbucket pointer", -1);
 #endif
-        Py_DECREF(self->firstbucket);
-        self->firstbucket = NULL;
+        Py_DECREF(firstbucket);
     }
 
-    if (self->data)
+    if (data)
     {
         int i;
         if (len > 0) /* 0 is special because key 0 is trash */
         {
-            Py_DECREF(self->data[0].child);
+            Py_DECREF(data[0].child);
         }
 
         for (i = 1; i < len; i++)
         {
 #ifdef KEY_TYPE_IS_PYOBJECT
-            DECREF_KEY(self->data[i].key);
+            DECREF_KEY(data[i].key);
 #endif
-            Py_DECREF(self->data[i].child);
+            Py_DECREF(data[i].child);
         }
-        free(self->data);
-        self->data = NULL;
+        free(data);
     }
 
-    self->len = self->size = 0;
     return 0;
 }
 
